@@ -69,10 +69,10 @@ private:
 /**
  * Observer of the analyser model's equivalence cache.  Called once per call to
  * AnalyserModel::areEquivalentVariables() with the two addresses as ordered by
- * the method, the cache key the method computed, and whether the answer was
- * served from the cache.
+ * the method, the cache key the method computed (as raw bytes, whatever its
+ * type), and whether the answer was served from the cache.
  */
-using EquivalenceCacheObserver = void (*)(const void *analyserModel, uintptr_t v1, uintptr_t v2, uintptr_t key, bool cacheHit, size_t cacheSize);
+using EquivalenceCacheObserver = void (*)(const void *analyserModel, uintptr_t v1, uintptr_t v2, const void *key, size_t keySize, bool cacheHit, size_t cacheSize);
 inline EquivalenceCacheObserver equivalenceCacheObserver = nullptr;
 
 } // namespace verif
